@@ -14,6 +14,7 @@ import (
 	"fmt"
 	"go/ast"
 	"go/printer"
+	"go/token"
 	"go/types"
 	"os"
 	"path/filepath"
@@ -59,7 +60,7 @@ func printDecls(pkgs []*packages.Package) {
 	fmt.Println("# declarations of the reference tree: what identifies a function or field besides its name (hlcheck -decls)")
 	var lines []string
 	for _, c := range newFunctions(pkgs, map[string]bool{}) {
-		lines = append(lines, "func\t"+c.name+"\t"+types.TypeString(c.obj.Type(), qual))
+		lines = append(lines, "func\t"+c.name+"\t"+sigKey(c.obj.Type()))
 	}
 	for _, p := range pkgs {
 		if !strings.HasPrefix(p.PkgPath, "github.com/jhalter/mobius") {
@@ -186,6 +187,26 @@ func typeDecls(pkgs []*packages.Package) []typeDecl {
 	return out
 }
 
+// sigKey: a signature by its parameter and result types (names left out: renaming a parameter changes nothing).
+func sigKey(t types.Type) string {
+	sig, ok := t.(*types.Signature)
+	if !ok {
+		return types.TypeString(t, qual)
+	}
+	var ps, rs []string
+	for i := 0; i < sig.Params().Len(); i++ {
+		ps = append(ps, types.TypeString(sig.Params().At(i).Type(), qual))
+	}
+	for i := 0; i < sig.Results().Len(); i++ {
+		rs = append(rs, types.TypeString(sig.Results().At(i).Type(), qual))
+	}
+	v := ""
+	if sig.Variadic() {
+		v = "..."
+	}
+	return "func(" + strings.Join(ps, ", ") + v + ") (" + strings.Join(rs, ", ") + ")"
+}
+
 // groupOf: the place of a function — its package for a plain function, its receiver for a method.
 func groupOf(full string) (group, bare string) {
 	if i := strings.LastIndex(full, ")."); i >= 0 && strings.HasPrefix(full, "(") {
@@ -251,7 +272,7 @@ func computeRenames(pkgs []*packages.Package, d *refDecls) (map[types.Object]str
 			continue
 		}
 		g, bare := groupOf(c.name)
-		newBy[g] = append(newBy[g], cand{c.obj, types.TypeString(c.obj.Type(), qual), bare})
+		newBy[g] = append(newBy[g], cand{c.obj, sigKey(c.obj.Type()), bare})
 	}
 	missingBy := map[string][][2]string{} // group → (bare, sig)
 	for n, sig := range d.funcs {
@@ -406,4 +427,161 @@ func renameEdits(N *normaliser, pkgs []*packages.Package, ren map[types.Object]s
 			})
 		}
 	}
+}
+
+// conversion: a recorded method that the tree lacks, and one unrecorded plain function of the same package whose
+// parameters are the method's receiver followed by the method's parameters (same results): the method was turned
+// into a function (and possibly renamed). On the copy the declaration gets its receiver back and every call f(x, a…)
+// is spelled (x).m(a…).
+type conversion struct {
+	fn      *types.Func
+	oldName string
+	note    string
+}
+
+func computeConversions(pkgs []*packages.Package, d *refDecls) []conversion {
+	var out []conversion
+	have := map[string]bool{}
+	type cand struct {
+		obj *types.Func
+		sig *types.Signature
+		pkg string
+	}
+	var news []cand
+	for _, c := range newFunctions(pkgs, map[string]bool{}) {
+		have[c.name] = true
+		if _, recorded := d.funcs[c.name]; recorded {
+			continue
+		}
+		sig := c.obj.Type().(*types.Signature)
+		if sig.Recv() == nil {
+			news = append(news, cand{c.obj, sig, shortName(c.pkg.PkgPath)})
+		}
+	}
+	for name, refSig := range d.funcs {
+		if have[name] || !strings.HasPrefix(name, "(") {
+			continue
+		}
+		g, bare := groupOf(name) // "(*pkg.T)" or "(pkg.T)"
+		inner := strings.TrimSuffix(strings.TrimPrefix(g, "("), ")")
+		ptr := strings.HasPrefix(inner, "*")
+		inner = strings.TrimPrefix(inner, "*")
+		pkgPath := inner[:strings.LastIndex(inner, ".")]
+		typeName := inner[strings.LastIndex(inner, ".")+1:]
+		var cs []cand
+		for _, c := range news {
+			if c.pkg != pkgPath || c.sig.Params().Len() == 0 {
+				continue
+			}
+			t0 := c.sig.Params().At(0).Type()
+			isPtr := false
+			if p, ok := t0.(*types.Pointer); ok {
+				t0, isPtr = p.Elem(), true
+			}
+			nt, ok := t0.(*types.Named)
+			if !ok || nt.Obj().Name() != typeName || isPtr != ptr || nt.Obj().Pkg() == nil || shortName(nt.Obj().Pkg().Path()) != pkgPath {
+				continue
+			}
+			// the remaining parameters and the results are the method's
+			var ps, rs []string
+			for i := 1; i < c.sig.Params().Len(); i++ {
+				ps = append(ps, types.TypeString(c.sig.Params().At(i).Type(), qual))
+			}
+			for i := 0; i < c.sig.Results().Len(); i++ {
+				rs = append(rs, types.TypeString(c.sig.Results().At(i).Type(), qual))
+			}
+			v := ""
+			if c.sig.Variadic() {
+				v = "..."
+			}
+			if "func("+strings.Join(ps, ", ")+v+") ("+strings.Join(rs, ", ")+")" == refSig {
+				cs = append(cs, c)
+			}
+		}
+		if len(cs) == 1 {
+			out = append(out, conversion{cs[0].obj, bare, fmt.Sprintf("function %s.%s is method %s of the reference tree", pkgPath, cs[0].obj.Name(), name)})
+		}
+	}
+	sort.Slice(out, func(i, j int) bool { return out[i].note < out[j].note })
+	return out
+}
+
+// conversionEdits gives the function its receiver back and spells its calls as method calls; false when some use of
+// the function is not a plain call (the conversion is then left alone).
+func conversionEdits(N *normaliser, pkgs []*packages.Package, cv conversion) bool {
+	type edit struct {
+		file string
+		e    textEdit
+	}
+	var eds []edit
+	off := func(p token.Pos) int { return N.fset.Position(p).Offset }
+	fileOf := func(p token.Pos) string { return N.fset.Position(p).Filename }
+	okAll := true
+	for _, p := range pkgs {
+		if !strings.HasPrefix(p.PkgPath, "github.com/jhalter/mobius") {
+			continue
+		}
+		for _, f := range p.Syntax {
+			callFun := map[*ast.Ident]*ast.CallExpr{}
+			ast.Inspect(f, func(n ast.Node) bool {
+				if c, ok := n.(*ast.CallExpr); ok {
+					switch x := c.Fun.(type) {
+					case *ast.Ident:
+						callFun[x] = c
+					case *ast.SelectorExpr:
+						callFun[x.Sel] = c
+					}
+				}
+				return true
+			})
+			for _, dcl := range f.Decls {
+				fd, ok := dcl.(*ast.FuncDecl)
+				if !ok || p.TypesInfo.Defs[fd.Name] != types.Object(cv.fn) {
+					continue
+				}
+				first := fd.Type.Params.List[0]
+				if len(first.Names) != 1 {
+					okAll = false
+					continue
+				}
+				src := N.src(fileOf(fd.Pos()))
+				recvText := string(src[off(first.Pos()):off(first.End())])
+				// func NAME(first, rest…) → func (first) OLD(rest…)
+				eds = append(eds, edit{fileOf(fd.Pos()), textEdit{off(fd.Name.Pos()), len(fd.Name.Name), "(" + recvText + ") " + cv.oldName}})
+				end := off(first.End())
+				if len(fd.Type.Params.List) > 1 {
+					end = off(fd.Type.Params.List[1].Pos())
+				}
+				eds = append(eds, edit{fileOf(fd.Pos()), textEdit{off(first.Pos()), end - off(first.Pos()), ""}})
+			}
+			for id, o := range p.TypesInfo.Uses {
+				if o != types.Object(cv.fn) {
+					continue
+				}
+				if fileOf(id.Pos()) != fileOf(f.Pos()) {
+					continue
+				}
+				c := callFun[id]
+				if c == nil || len(c.Args) == 0 || c.Ellipsis.IsValid() && len(c.Args) == 1 {
+					okAll = false
+					continue
+				}
+				src := N.src(fileOf(c.Pos()))
+				a0 := string(src[off(c.Args[0].Pos()):off(c.Args[0].End())])
+				eds = append(eds, edit{fileOf(c.Pos()), textEdit{off(c.Fun.Pos()), off(c.Fun.End()) - off(c.Fun.Pos()), "(" + a0 + ")." + cv.oldName}})
+				end := off(c.Args[0].End())
+				if len(c.Args) > 1 {
+					end = off(c.Args[1].Pos())
+				}
+				eds = append(eds, edit{fileOf(c.Pos()), textEdit{off(c.Args[0].Pos()), end - off(c.Args[0].Pos()), ""}})
+			}
+		}
+	}
+	if !okAll {
+		return false
+	}
+	for _, e := range eds {
+		N.edits[e.file] = append(N.edits[e.file], e.e)
+	}
+	return true
 }
